@@ -633,6 +633,10 @@ def install(w):
     def _find_tuple(ex, st, args):
         return find_like("find", ex, st, args[0], [exp.Tuple], True)
 
+    @sf("find_array_agg")
+    def _find_array_agg(ex, st, args):
+        return find_like("find", ex, st, args[0], [exp.ArrayAgg], True)
+
     @sf("find_clone")
     def _find_clone(ex, st, args):
         return find_like("find", ex, st, args[0], [exp.Clone], True)
